@@ -239,6 +239,46 @@ def unsanitised(terms, sanitisers):
     return walk(terms)
 
 
+# operations that change the TEXT of a path: applied to the result of the containment check they make the path that is
+# written another one than the path that was checked (a backslash turned into a separator makes `..\\..` climb)
+REWRITING_METHODS = ("replace", "translate", "strip", "lstrip", "rstrip", "removeprefix", "removesuffix", "format", "expandtabs", "lower", "upper", "casefold", "decode", "encode")
+REWRITING_CALLS = ("os.path.expanduser", "os.path.expandvars", "re.sub", "urllib.parse.unquote", "urllib.parse.unquote_plus", "os.path.relpath", "unicodedata.normalize")
+
+
+def rewritten_after_check(terms, sanitisers):
+    """(operation, True) for the first text-rewriting operation whose operand contains the result of a containment check."""
+    def has_check(part):
+        if isinstance(part, frozenset):
+            return any(has_check(x) for x in part)
+        if isinstance(part, tuple):
+            if len(part) >= 2 and part[0] == "pkgcall" and part[1] in sanitisers:
+                return True
+            return any(has_check(x) for x in part if isinstance(x, (tuple, frozenset)))
+        return False
+
+    def walk(part):
+        if isinstance(part, frozenset):
+            for x in part:
+                r = walk(x)
+                if r:
+                    return r
+            return None
+        if isinstance(part, tuple):
+            if len(part) >= 3 and part[0] == "meth" and part[1] in REWRITING_METHODS and has_check(part[2]):
+                return ".%s(...)" % part[1]
+            if len(part) >= 3 and part[0] == "ext" and part[1] in REWRITING_CALLS and has_check(part[2]):
+                return part[1]
+            if len(part) >= 2 and part[0] == "pkgcall" and part[1] in sanitisers:
+                return None         # what goes INTO the check may be rewritten freely
+            for x in part:
+                if isinstance(x, (tuple, frozenset)):
+                    r = walk(x)
+                    if r:
+                        return r
+        return None
+    return walk(terms)
+
+
 def run(ctx):
     ctx.trust("os.path.realpath / commonpath semantics; effect table of external primitives")
     entries = C.funcs(ctx, ENTRY_FUNCS) + C.class_methods(ctx, ENTRY_CLASSES)
@@ -303,6 +343,10 @@ def run(ctx):
                     extra = " (candidate %s rejected: %s)" % next(iter(rejected.items()))
                 ctx.violated("C19.1", e.fn, "%s writes to a path built from metafile content (name / path elements / file-tree keys) that has not passed a containment check: '..', absolute or separator-bearing components leave the destination%s" % (
                     e.prim, extra), norm(e.site) + " :: " + norm(a), path=where)
+            elif rewritten_after_check(t, set(sanitisers)):
+                ctx.violated("C19.1", e.fn, "%s writes to a path whose text is changed by %s AFTER it passed the containment check: the path written is not the path that was checked "
+                             "(a name that is one harmless component as checked can become several, '..' among them)" % (e.prim, rewritten_after_check(t, set(sanitisers))),
+                             norm(e.site) + " :: " + norm(a), path=where)
             else:
                 ctx.holds("C19.1", e.fn, "%s: every metafile-derived component of the written path went through %s" % (
                     e.prim, ", ".join(sorted(q.split(":")[1] for q in sanitisers))), norm(e.site) + " :: " + norm(a), path=where)
@@ -351,6 +395,9 @@ MUTANTS = [
      "edits": [("        if self._prog is not None:\n            self.progbar.close_out()", "        if self._prog is not None:\n            self.progbar.close_out()\n        with open(os.path.join(dest, self.name + '.done'), 'w') as marker:\n            marker.write('ok')")]},
     {"name": "root-is-metafile-dir", "file": "torrentfile/rebuild.py", "expect": "violated", "rule": "C19", "canary": True,
      "what": "containment root taken from the metafile's own directory", "edits": [(_HELPER_USE_2, '                        dest_path = _contained(os.path.join(dest, entry["path"]), entry["full"])')]},
+    {"name": "checked-path-rewritten-before-the-copy", "file": "torrentfile/utils.py", "expect": "violated", "rule": "C19.1", "canary": True,
+     "what": "copypath turns backslashes of the (already checked) destination path into separators",
+     "edits": [("    path_parts = Path(dest).parts", "    dest = str(dest).replace(chr(92), '/')\n    path_parts = Path(dest).parts")]},
     {"name": "benign-sanitiser-renamed", "file": "torrentfile/rebuild.py", "expect": "clean",
      "what": "helper renamed and rewritten with is-equal test", "edits": [("_contained(", "_inside(", 3), ("    if full == root or os.path.commonpath([root, full]) != root:\n        raise ValueError", "    if os.path.commonpath([root, full]) == root and full != root:\n        return full\n    if True:\n        raise ValueError")]},
 ]
